@@ -6,6 +6,9 @@ from .refvm import BUILTIN_FAMILY, Cyclic, canon_i, canon_s, run_ref
 from .stubexec import run_source
 
 
+FROZENSET_GLOB = ("glob", "builtins", "frozenset")
+
+
 class Decompiled:
     __slots__ = ("status", "src", "pickled", "error", "phase")
 
@@ -134,6 +137,12 @@ def value_mismatch(o, result_name="result"):
         return {"kind": "value", "vm": _short(want), "decompile": _short(got)}
     _, vc = vm_events(o.ref)
     _, sc = src_events(o.ex)
+    # frozenset has no literal: the FROZENSET opcode is data construction on the VM
+    # side but necessarily a `frozenset(...)` expression in source, so calls of the
+    # frozenset constructor are not counted in the equality (the value comparison
+    # above still sees every frozenset).
+    vc = Counter({e: n for e, n in vc.items() if e[1] != FROZENSET_GLOB})
+    sc = Counter({e: n for e, n in sc.items() if e[1] != FROZENSET_GLOB})
     if vc != sc:
         extra = missing(sc, vc)
         lack = missing(vc, sc)
